@@ -1,5 +1,5 @@
 import MuscleModel.Reflector.UpdateProofs
-import MuscleModel.Reflector.MirrorProofs26
+import MuscleModel.Reflector.MirrorProofs30
 
 /-!
 # C04 — A subscriber's mirror of the node tree converges to the server's tree
@@ -54,6 +54,14 @@ Section 10 (lemmas `Reflector/MirrorProofs23…25.lean`): the index commands of 
 
 Section 11 (lemmas `Reflector/MirrorProofs26.lean`): `converges_changing_subs` — the subscriber's own SUBSCRIBEs of new
 paths and unsubscribes (client drop rule threaded through the replay) interleaved with `Story` segments.
+
+Section 12 (lemmas `Reflector/MirrorProofs27…29.lean`): the traversal with `GetDataCallback` — `getdata_visits` (the visits
+are the visits of the continue-callback outside the own subtree), `snapVisits_plain_session`, `subNewOK_by_rule`: `SnapVisits`
+is no longer a hypothesis except for sessions with the indexing flag that do not reflect to themselves (whose snapshots
+contain their own nodes by design).
+
+Section 13 (lemmas `Reflector/MirrorProofs30.lean`): the subscriber's own max-items and default-route parameter commands
+at quiescent points (`own_param_step`), `Run2`, `converges_changing_subs_params`.
 
 Full statements of the property theorems that are NOT proved (kept for reference):
   `step_mirror : MReach sv → CmdOK c → ∀ attached s with subscriptions enabled, ∃ evs, Sync s.sid s sv (runCmd sv a c) m evs`
@@ -455,10 +463,11 @@ theorem delivery_twin (sid : Nat) (sv : Server) (by_ : Nat) (names : List Bytes)
       (evsFor sid (changeEvents sv by_ names node od removed)) :=
   pipeStep_notifyChanged sid sv by_ names node od removed
 
-/-- what `PipeStep` says, spelled out -/
+/-- what `PipeStep` says, spelled out (`Sess.vcore` = `core` without max-items, parameter list, indexing flag and default
+    route: what the data view reads) -/
 theorem pipeStep_def (sid : Nat) (sv sv' : Server) (evs : List Ev) :
     PipeStep sid sv sv' evs ↔
-      ∀ s, sv.sess? sid = some s → ∃ s' sent, sv'.sess? sid = some s' ∧ s'.core = s.core ∧
+      ∀ s, sv.sess? sid = some s → ∃ s' sent, sv'.sess? sid = some s' ∧ s'.vcore = s.vcore ∧
         dataLines s' = dataLines s ++ sent.map dataText ∧
         ∀ m, applyMsg (applyMsgs m sent) (pend s') = evs.foldl applyEv (applyMsg m (pend s)) := Iff.rfl
 
@@ -562,7 +571,7 @@ theorem step_chain {sid : Nat} {s : Sess} {a b c : Server} {m : Mirror} {e1 e2 :
 theorem converges_partial {sid : Nat} {s : Sess} {sv sv' : Server} {m : Mirror} {evs : List Ev}
     (h : Sync sid s sv sv' m evs) (hs : sv.sess? sid = some s) (hq : pend s = {})
     (hq' : ∀ s', sv'.sess? sid = some s' → pend s' = {}) :
-    ∃ s' sent, sv'.sess? sid = some s' ∧ s'.core = s.core ∧ dataLines s' = dataLines s ++ sent.map dataText ∧
+    ∃ s' sent, sv'.sess? sid = some s' ∧ s'.vcore = s.vcore ∧ dataLines s' = dataLines s ++ sent.map dataText ∧
       applyMsgs m sent = evs.foldl applyEv m ∧ (MirrorOK sv s m → MirrorOK sv' s (applyMsgs m sent)) :=
   replay_of_sync h hs hq hq'
 
@@ -664,7 +673,7 @@ theorem steady_step {sid : Nat} {sv sv' : Server} (hst : Steady sid sv sv') (h :
 theorem converges_steady {sid : Nat} {sv sv' : Server} (hst : Steady sid sv sv') (h : Inv sv) {s : Sess}
     (hs : sv.sess? sid = some s) (hen : s.subsEnabled = true) (hq : pend s = {})
     (hq' : ∀ s', sv'.sess? sid = some s' → pend s' = {}) (m : Mirror) (hm : MirrorOK sv s m) :
-    ∃ s' sent, sv'.sess? sid = some s' ∧ s'.core = s.core ∧ dataLines s' = dataLines s ++ sent.map dataText ∧
+    ∃ s' sent, sv'.sess? sid = some s' ∧ s'.vcore = s.vcore ∧ dataLines s' = dataLines s ++ sent.map dataText ∧
       MirrorOK sv' s' (applyMsgs m sent) :=
   converges_steady_core hst h hs hen hq hq' m hm
 
@@ -826,28 +835,29 @@ example : namesOf (pathString [[105], [49], [97]]) = [[105], [49], [97]] := by d
 
 `InsDepthOK sv a key`: the nodes the insert traversal of session `a` visits lie above depth 110 (the model has no
 `MUSCLE_MAX_NODE_DEPTH` check).  `HK sv`: every node `[host, x]` has `x = sidName k` with `k < sv.nextSid`.
-`Inv2 sv = Inv sv ∧ HK sv` (every `CReach` state: `creach_inv2`).  `StoryCmd sid sv a c`: SETDATA within the depth bound (with
-the index flag: `a ≠ sid`); REMOVEDATA; INSERTORDEREDDATA (`a ≠ sid`, `InsDepthOK`); REORDERDATA (`a ≠ sid`); otherwise a
-quiet command that is `CmdOK`.  `Story sid`: such commands, pushes, departures of others, arrivals. -/
+`Inv2 sv = Inv sv ∧ HK sv` (every `CReach` state: `creach_inv2`).  `StoryCmd sid sv a c`: SETDATA (with or without the index
+flag) within the depth bound; REMOVEDATA; INSERTORDEREDDATA (`InsDepthOK`); REORDERDATA; otherwise a quiet command that is
+`CmdOK` — the index commands may be the subscriber's own.  `Story sid`: such commands, pushes, departures of others, arrivals. -/
 
-/-- PR_COMMAND_INSERTORDEREDDATA of another session: each inserted child is a notified creation (generated name `I<n>`);
+/-- PR_COMMAND_INSERTORDEREDDATA of ANY session (the subscriber's own included; the sender's indexing flag is not part of
+    `vcore`): each inserted child is a notified creation (generated name `I<n>`);
     counter, index entry and `NodeIndexChanged` do not touch the data view (index Messages are no data lines). -/
-theorem step_mirror_ins_other {sid a : Nat} (ha : a ≠ sid) {sv : Server} (h : Inv sv) (key before : Bytes) (vals : List Nat)
+theorem step_mirror_ins_other {sid a : Nat} {sv : Server} (h : Inv sv) (key before : Bytes) (vals : List Nat)
     (hd : InsDepthOK sv a key) :
     SyncFor sid sv (runCmd sv a (.ins key before vals)) :=
-  (syncFor_insertOrdered ha h.2 key before vals hd).1
+  (syncFor_insertOrdered h.2 key before vals hd).1
 
-/-- SETDATA with SETDATANODE_FLAG_ADDTOINDEX of another session (inner nodes created plainly, the last clause by
+/-- SETDATA with SETDATANODE_FLAG_ADDTOINDEX of ANY session (inner nodes created plainly, the last clause by
     `InsertOrderedChild`, nothing when it exists). -/
-theorem step_mirror_set_indexed_other {sid a : Nat} (ha : a ≠ sid) {sv : Server} (h : Inv sv) (path : Bytes)
+theorem step_mirror_set_indexed_other {sid a : Nat} {sv : Server} (h : Inv sv) (path : Bytes)
     (hok : SetOK path) (x : Nat) : SyncFor sid sv (runCmd sv a (.set path x true)) :=
-  (syncFor_setIndexed ha h.2 path hok x).1
+  (syncFor_setIndexed h.2 path hok x).1
 
-/-- PR_COMMAND_REORDERDATA of another session: an empty step of the data pipe, no payload changes. -/
-theorem step_mirror_reorder_other {sid a : Nat} (ha : a ≠ sid) (sv : Server) (key before : Bytes) :
+/-- PR_COMMAND_REORDERDATA of ANY session: an empty step of the data pipe, no payload changes. -/
+theorem step_mirror_reorder_other (sid a : Nat) (sv : Server) (key before : Bytes) :
     PipeStep sid sv (runCmd sv a (.reorder key before)) [] ∧
     ∀ w, (getNode (runCmd sv a (.reorder key before)) w).map Node.data = (getNode sv w).map Node.data :=
-  quiet_reorder ha sv key before
+  quiet_reorder sid a sv key before
 
 theorem creach_inv2 {sv : Server} (h : CReach sv) : Inv2 sv := h.inv2
 
@@ -877,7 +887,7 @@ theorem converges_fixed_subs_story_thm {sv0 sv' : Server} (h0 : Inv2 sv0) {sid :
 a new host, session 1 pings, push. -/
 example : Story 0 (runCmd exSv1 0 (.sub [97] none))
     (pushAll (runCmd (attach (runCmd (runCmd exSv1 0 (.sub [97] none)) 1 (.reorder [42] [])) 2 [106]).1 1 (.ping 1))) :=
-  .trans (.cmd 1 (.reorder [42] []) (show (1 : Nat) ≠ 0 by decide))
+  .trans (.cmd 1 (.reorder [42] []) trivial)
     (.trans (.attach 2 [106] (by decide) (by decide +kernel)) (.trans (.cmd 1 (.ping 1) ⟨trivial, trivial⟩) .push))
 
 /-! ## 11. `converges` with a changing subscription set
@@ -935,5 +945,75 @@ example : Run 0 exSv1 (runCmd (pushAll (runCmd (runCmd exSv1 0 (.sub [97] none))
     exact ⟨h.2, by rw [hnil]; rfl⟩
   · intro s' hs'
     exact pend_after_pushAll (by decide +kernel) hs'
+
+/-! ## 12. the snapshot traversal of plain sessions
+
+`cbG own` = `GetDataCallback` of a session that neither reflects to itself nor carries the indexing flag and whose session
+node is named `own`: `(false, 2)` on the nodes of its own subtree, `(true, depth)` elsewhere.  `ctxGg pm uf own` / `ctxCc pm uf`
+= the traversal contexts from the global root with that callback / with the continue-callback. -/
+
+/-- From the global root, for every matcher satisfying the hypotheses of C05, every tree with distinct sibling names and
+    every fuel: the visits recorded with `GetDataCallback` are exactly the visits recorded with the continue-callback that
+    do not lie in the own subtree (answering depth 2 on an own node at depth ≥ 4 unwinds to the session level, at depth 3
+    it rules out the descent: nothing outside the own subtree is lost). -/
+theorem getdata_visits (pm : PM) (uf : Bool) (own : Bytes) (hwf : pmWF pm = true) (hl : ClauseLaws pm) (fuel : Nat)
+    (root : Node) (hk : kidsNodup fuel root = true) :
+    ∀ v, v ∈ (travAux (ctxGg pm uf own) fuel root [] 0).1 ↔
+      v ∈ (travAux (ctxCc pm uf) fuel root [] 0).1 ∧ ¬ ownerName v = some own :=
+  travG_mem pm uf own hwf hl fuel root hk
+
+/-- `SnapVisits` for a plain session. -/
+theorem snapVisits_plain_session {C : Server} (hti : TreeInv C) {sC : Sess} (hr : sC.reflectSelf = false)
+    (hi : sC.indexingPresent = false) {fix : Bytes} (hgood : GoodPath fix) (f : Option Filt) : SnapVisits C sC fix f :=
+  snapVisits_plain hti hr hi hgood f
+
+/-- the premises of a new SUBSCRIBE reduce to `GoodPath`, "not yet subscribed under this normalised spelling", and "the
+    session reflects to itself or does not carry the indexing flag" -/
+theorem subNewOK_by_rule {sid : Nat} {sv : Server} (hti : TreeInv sv) (path : Bytes) (f : Option Filt)
+    (hgood : GoodPath (adjustPrefix path (some defaultPrefix)))
+    (h : ∀ s, sv.sess? sid = some s → (s.reflectSelf = true ∨ s.indexingPresent = false) ∧
+      pmFind s.subs (adjustPrefix path (some defaultPrefix)) = none) :
+    SubNewOK sid sv path f :=
+  subNewOK_of_rule hti path f hgood h
+
+/-! Non-vacuity: in `exSv` (no reflect-to-self anywhere) session 1 — which OWNS `/i/1/a` — is a plain session without
+subscription; its SUBSCRIBE of `a` satisfies `SubNewOK`. -/
+theorem exSv_sess1 : (exSv.sess? 1).map (fun s => (s.subs.length, s.reflectSelf, s.indexingPresent)) =
+    some (0, false, false) := by decide +kernel
+
+example : SubNewOK 1 exSv [97] none := by
+  apply subNewOK_by_rule (creach_inv2 exSv_creach).1.1 [97] none goodPath_a
+  intro s hs
+  have h := exSv_sess1
+  rw [hs] at h
+  simp only [Option.map_some, Option.some.injEq, Prod.mk.injEq] at h
+  have hnil : s.subs = [] := List.eq_nil_of_length_eq_zero h.1
+  exact ⟨Or.inr h.2.2, by rw [hnil]; rfl⟩
+
+/-! ## 13. the subscriber's own parameter commands
+
+`OwnParamCmd c`: max-items-per-update and default-route parameters, set or removed (NOT the reflect-to-self parameter: it
+changes which nodes are visible and the server sends no snapshot for it).  `Quiescent sid sv s m`: invariants, `sid` attached
+as `s` with subscriptions enabled, nothing pending, `MirrorOK sv s m`.  `Run2` = `Run` plus these commands of `sid` itself. -/
+
+/-- Sent by the subscriber itself at a quiescent point, such a command leaves tree, pending Message, inbox and the
+    specification of its mirror untouched. -/
+theorem own_param_step {sid : Nat} {sv : Server} {s : Sess} {m : Mirror} (q : Quiescent sid sv s m) (c : Cmd)
+    (hc : OwnParamCmd c) :
+    ∃ s', Quiescent sid (runCmd sv sid c) s' m ∧ dataLines s' = dataLines s ∧ s'.sid = s.sid ∧
+      s'.reflectSelf = s.reflectSelf :=
+  ownParam_quiescent q c hc
+
+/-- `converges_changing_subs` with the subscriber's own parameter commands in the run. -/
+theorem converges_changing_subs_params {sid : Nat} {sv0 sv' : Server} (h0 : Inv2 sv0) {s0 : Sess}
+    (hs0 : sv0.sess? sid = some s0) (hnos : s0.subs = []) (hen : s0.subsEnabled = true) (hq0 : pend s0 = {})
+    (hr : Run2 sid sv0 sv') :
+    ∃ s' items, sv'.sess? sid = some s' ∧ pend s' = {} ∧
+      dataLines s' = dataLines s0 ++ (msgsOf items).map dataText ∧
+      MirrorOK sv' s' (client (fun _ => none) items) :=
+  converges_run2 h0 hs0 hnos hen hq0 hr
+
+/-! Non-vacuity: session 0 of `exSv1` sets its max-items parameter to 1 before subscribing. -/
+example : Run2 0 exSv1 (runCmd exSv1 0 (.paramMax 1)) := .ownParam (.paramMax 1) trivial
 
 end Muscle.Props.C04
